@@ -244,3 +244,70 @@ def _lin_place(body, du, pl, depth):
         if names[0] in flds:
             return lin_offset(body, du, rv["ops"][flds.index(names[0])], depth + 1)
     return (("unknown", rv["k"]), 0)
+
+
+TRUNCATING = ("take", "skip", "take_while", "skip_while", "step_by", "nth", "last", "find", "find_map", "position", "max", "min", "max_by", "max_by_key",
+              "min_by", "min_by_key", "zip", "unique", "unique_by", "dedup", "dedup_by", "dedup_by_key", "truncate", "pop", "first", "nth_back",
+              "map_while", "fuse_first", "single", "exactly_one", "at_most_one", "find_or_first", "find_or_last", "reduce")
+
+
+def lossy_ops(body, sl):
+    """operations along a def-use slice that can drop elements of a collection: iterator truncators / single-element
+    reductions, collecting key-value pairs into a map or a set (a second pair with the same key replaces the first),
+    and Map::insert.  returns [(name, bb or None)]"""
+    out = []
+    allc = {}
+    for d_ in (sl.calls, sl.decls):
+        for c, bbs in d_.items():
+            allc.setdefault(c, set()).update(bbs)
+    for c, bbs in sorted(allc.items()):
+        last = c.rsplit("::", 1)[-1]
+        iterish = "iter::" in c or "Iterator" in c or "itertools" in c.lower() or c.startswith(("std::vec::Vec", "std::slice", "core::slice", "std::collections::VecDeque"))
+        if last in TRUNCATING and iterish:
+            out.append((last, min(bbs) if bbs else None))
+        if last in ("collect", "from_iter"):
+            for bb in sorted(bbs):
+                t = body.blocks[bb].term
+                tgt = " ".join([t.get("inst") or ""] + [str(x) for x in (t.get("targs") or [])][-1:])
+                tail = (t.get("targs") or [""])[-1] if t.get("targs") else ""
+                if any(tail.startswith(x) for x in ("std::collections::BTreeMap<", "std::collections::HashMap<", "std::collections::HashSet<", "std::collections::BTreeSet<")):
+                    out.append(("collect-into-%s" % tail.split("<")[0].rsplit("::", 1)[-1], bb))
+        if last == "insert" and any(x in c for x in ("BTreeMap", "HashMap", "DashMap")):
+            out.append(("map-insert", min(bbs) if bbs else None))
+    return out
+
+
+def branch_conditions(body, bb, dom=None):
+    """switches that control `bb`: [(switch bb, discr operand, value)] where value is the integer of the taken target,
+    or ("not", [values]) for the otherwise edge.  A switch controls bb when one of its targets dominates bb and is
+    entered only from the switch."""
+    from . import cfg as _cfg
+    dom = dom or _cfg.dominators(body)
+    preds = {}
+    for x, ss in body.succs().items():
+        for y in ss:
+            preds.setdefault(y, set()).add(x)
+    out = []
+    for d in dom.get(bb, ()):
+        t = body.blocks[d].term
+        if t["k"] != "switch" or d == bb:
+            continue
+        for v, tg in t["targets"]:
+            if tg in dom[bb] and preds.get(tg) == {d} and tg != t["otherwise"]:
+                out.append((d, t["discr"], int(v)))
+        o = t["otherwise"]
+        if o in dom[bb] and preds.get(o) == {d} and all(tg != o for _, tg in t["targets"]):
+            out.append((d, t["discr"], ("not", [int(v) for v, _ in t["targets"]])))
+    return out
+
+
+def guarded_true_by_call(body, du, bb, callee_suffix, dom=None):
+    """is bb controlled by the true branch of a boolean that derives from a call to callee_suffix"""
+    for d, discr, val in branch_conditions(body, bb, dom):
+        is_true = (val == 1) or (isinstance(val, tuple) and val[1] == [0])
+        if not is_true:
+            continue
+        sl = du.slice_operand(discr)
+        if sl.has_call(callee_suffix):
+            return True
+    return False
